@@ -167,7 +167,11 @@ class Comparator:
             x, y = ca.get(n, F(0)), cb.get(n, F(0))
             ta, tr = self.tol_amt(W.msubs[n], k)
             if not close(x, y, ta, tr):
-                if not gross(x, y, ta):
+                # what is left after a near-total withdrawal is a difference of large numbers: replicas that agreed to 1e-6
+                # on the amount before (the drift band) may differ by percents on the remainder.  Drift is therefore measured
+                # against the largest amount the substance ever had in one vessel of the run, where that is known.
+                scale = max(abs(x), abs(y), getattr(self, 'peak', {}).get(n, F(0)))
+                if abs(x - y) <= 50 * ta + DRIFT * scale * (F(1) if scale == max(abs(x), abs(y)) else F(1, 1000)):
                     self.drifted = True
                     continue
                 return f"{where}: {n} = {float(x):.9g} vs {float(y):.9g} ({'mol' if not W.msubs[n].is_enzyme else 'U'})"
@@ -628,6 +632,7 @@ def finish_recipe(record, run0, known):
                 break
         # bake results in user units
         cmpr = Comparator(cfgs, len(calls))
+        cmpr.peak = dict(run0.peak)
         if run0.baked is not None and run.baked is not None:
             for n in run0.baked:
                 if n in run.baked:
